@@ -19,21 +19,29 @@ from .common import stable_rng, quick
 from .C08 import _cmat
 from .C20 import _rmat, _conjT, _meq
 
-LEVEL = "other"
+LEVEL = "proof"
 EXPLANATION = ("Deductive (counted): cyclic shift == multiplication by the linear phase ramp exp(j 2 pi n_cs m / den) for symbolic "
                "sequences (den 8 for SRS, 12 for DMRS); cyclic extension: element i of the extended sequence is element i mod N, every "
                "size; normalisation divides by the Euclidean norm (norm^2 == sum |x|^2); least-squares pilot estimation Y s^H (s s^H)^-1 "
                "returns the channel exactly for symbolic full-row-rank pilots incl. the 3-D batching; the CAZAC-based estimators return "
                "exactly the DFT of the channel taps for a symbolic unit-amplitude reference sequence, symbolic taps within the kept "
-               "window, one and two antennas, plain and cover-code variants, normalised or not (DFT size 4, exact roots of unity).  "
-               "Complete enumeration: the base length is the largest prime <= size for EVERY size 12, 24, 25..1200.  "
-               "Constant amplitude, zero cyclic autocorrelation, flat spectrum, orthogonality of shifts and multi-user rejection are "
-               "theorems about exponential sums (quadratic Gauss sums) outside the solver's reach: bounded/exhaustive numeric checks on "
-               "the real code - hence 'other'.")
+               "window, one and two antennas, plain, comb (size multiplier 2, DFT size 8) and cover-code variants, normalisation flag "
+               "False / True / numpy bool, receive buffer untouched (DFT sizes 4 and 8, exact roots of unity).  calcBaseZC is executed "
+               "for SYMBOLIC Nzc, u, q: its element i is exp(-j pi u i (i+1+2q)/Nzc), exactly Nzc elements.  For that sequence lemma L-ZC "
+               "(Lean 4 + Mathlib, thorough tier) gives unit amplitude, period N for odd N, zero cyclic autocorrelation at every lag k with "
+               "N not dividing u k (all non-zero lags for the prime lengths used), the flat spectrum |DFT|^2 == N, and the root-of-unity "
+               "sum behind the orthogonality of cyclic shifts when the number of shifts divides the length.  A second user on another "
+               "cyclic shift whose response fits its shift window does not change the estimate (two users, 8 subcarriers, symbolic "
+               "channels).  Complete enumeration: the base length is the largest prime <= size for EVERY size 12, 24, 25..1200.  "
+               "Bounded numeric checks repeat the CAZAC claims on the real code for every root of every prime length in the stated range "
+               "and run the estimators at LTE sizes with several users.")
 ASSUMPTIONS = [
-    "np.fft.fft/ifft contract: the DFT matrix (exact for size 4: entries 1, -1, j, -j); np.linalg.inv/norm contracts",
+    "np.fft.fft/ifft contract: the DFT matrix (exact for sizes 4 and 8: entries built from 1, j and h = sqrt(1/2)); np.linalg.inv/norm contracts",
     "unit-amplitude reference sequence given in polar form with modulus 1 (cos^2 + sin^2 = 1)",
-    "CAZAC properties: numeric, every root for every prime length <= 211 (quick) / <= 1193 (thorough), tolerance 1e-9",
+    "np.arange(n) contract (generic element of a sequence of symbolic length) in zc/generic_element_is_the_definition",
+    "lemma L-ZC (unit amplitude, periodicity, zero autocorrelation, flat spectrum, shift orthogonality of the Zadoff-Chu definition) "
+    "machine-checked in Lean in the thorough tier, assumed in the quick tier; estimators proved for 4 and 8 subcarriers (values symbolic), "
+    "LTE sizes in the bounded check; the tabulated length-12/24 sequences are not Zadoff-Chu sequences and are outside the CAZAC claim",
 ]
 TRUSTED_BASE = ["numpy FFT in the bounded part"]
 
@@ -60,6 +68,43 @@ def ob_shift(which):
             goals.append(Goal("n_cs=%d" % n_cs, sym.SBool(z3.And(conj)) if ok else False))
         return goals
     return verify(body, check_side=False)
+
+
+@obligation("zc/generic_element_is_the_definition",
+            desc="calcBaseZC(Nzc, u, q) for SYMBOLIC Nzc > u >= 1 and q (np.arange contract, time axis abstracted to its generic element): "
+                 "a sequence of exactly Nzc elements whose element i equals exp(-j pi u i (i + 1 + 2q) / Nzc) - the Zadoff-Chu "
+                 "definition whose CAZAC properties are lemma L-ZC")
+def ob_zc_generic():
+    def body(c, it):
+        import pyphysim.reference_signals.zadoffchu as zc
+        from pyvc.seq import SymSeq
+        N, u, q = c.var("Nzc", "int"), c.var("u", "int"), c.var("q", "int")
+        c.assume((u >= 1) & (u < N) & (q >= 0))
+        it.models[np.arange] = lambda interp, *a, **k: (SymSeq.arange(a[0]) if len(a) == 1 and isinstance(a[0], sym.SNum)
+                                                        else interp.call_real(np.arange, list(a), k))
+        x = it.call(zc.calcBaseZC, [N, u, q])
+        ok = isinstance(x, SymSeq)
+        goals = [Goal("result is a sequence", ok)]
+        if not ok:
+            return goals
+        goals.append(Goal("length == Nzc", lift(x.n) == N))
+        i = c.var("i", "int")
+        c.assume((i >= 0) & (i < N))
+        v = sym.to_complex(x.f(i))
+        theta = -(np.pi * u * i * (i + 1 + 2 * q)) / N
+        goals.append(Goal("element i == exp(-j pi u i (i+1+2q) / Nzc)", (v.re == lift(theta).cos()) & (v.im == lift(theta).sin())))
+        return goals
+    return verify(body)
+
+
+@obligation("lemma/zadoff_chu_cazac_lean", kind="lemma", tiers=("thorough",), timeout=2400,
+            desc="L-ZC (Lean 4 + Mathlib, lemmas/ZadoffChu.lean) about the sequence exp(-j pi u n (n+1+2q)/N) that calcBaseZC is proved to "
+                 "compute: unit amplitude for all N, u, q, n; period N for odd N; zero cyclic autocorrelation at every lag k with N not "
+                 "dividing u k (all non-zero lags for the prime lengths used); sum of a full period of a non-trivial D-th root of unity "
+                 "is zero when D | N (orthogonality of different cyclic shifts of unit-amplitude sequences)")
+def ob_lemma_zc_lean():
+    from pyvc.oblig import lean_lemma
+    return lean_lemma("ZadoffChu.lean", 2000)
 
 
 @obligation("extension/cyclic_repeat", desc="get_extended_ZF(root, size)[i] is root[i mod N] and the length is size, for symbolic roots "
@@ -154,7 +199,9 @@ def _unit_seq(c, tag, N):
 
 
 @obligation("estimator/cazac_exact", params=[{"variant": v, "ant": a, "norm": n} for v in ("plain", "occ", "occ_flat") for a in (1, 2)
-                                             for n in (False, True, "np.bool_(True)")],
+                                             for n in (False, True, "np.bool_(True)")] +
+            [{"variant": "plain_comb2", "ant": a, "norm": n} for a in (1, 2) for n in (False, True)] +
+            [{"variant": "plain_two_users", "ant": a, "norm": n} for a in (1, 2) for n in (False, True)],
             timeout=200,
             desc="CAZAC-based estimators with a symbolic unit-amplitude reference sequence of 4 subcarriers and a symbolic channel with 2 taps "
                  "(inside the kept window): the noise-free estimate equals the DFT of the taps exactly (size_multiplier 1; cover-code variant "
@@ -184,7 +231,46 @@ def ob_estimator(variant, ant, norm):
             pad = np.zeros(N, dtype=object)
             pad[:L + 1] = taps[a]
             Hf[a] = np.dot(F, pad)
-        if variant == "plain":
+        if variant == "plain_two_users":
+            # a second user transmits on cyclic shift 4 of 8 (phase ramp (-1)^m, see shift/linear_phase_ramp) through its OWN channel whose
+            # delay spread fits its shift window: the estimate for the first user is still exactly the first user's channel
+            N8 = 8
+            r8 = _unit_seq(c, "r", N8)
+            taps2 = _cmat(c, "g", ant, L + 1)
+            F8 = _dft_matrix(N8, False)
+            Hf = np.empty((ant, N8), dtype=object)
+            Hf2 = np.empty((ant, N8), dtype=object)
+            for a in range(ant):
+                pad = np.zeros(N8, dtype=object)
+                pad[:L + 1] = taps[a]
+                Hf[a] = np.dot(F8, pad)
+                pad2 = np.zeros(N8, dtype=object)
+                pad2[:L + 1] = taps2[a]
+                Hf2[a] = np.dot(F8, pad2)
+            seq = it.call(srs.UeSequence, [root, 0, r8, norm])
+            est = it.call(ce.CazacBasedChannelEstimator, [seq, 1])
+            rs = it.call(it.getattr(seq, "seq_array"), [])
+            ramp = np.array([1, -1] * (N8 // 2), dtype=object)
+            Y = Hf * rs[np.newaxis, :] + Hf2 * (rs * ramp)[np.newaxis, :]
+            if ant == 1:
+                Y = Y[0]
+            out = it.call(it.getattr(est, "estimate_channel_freq_domain"), [Y, L])
+        elif variant == "plain_comb2":
+            # SRS comb: the reference occupies every other of 2N subcarriers; the estimate covers all 2N (DFT contract of size 8)
+            seq = it.call(srs.UeSequence, [root, 0, r0, norm])
+            est = it.call(ce.CazacBasedChannelEstimator, [seq, 2])
+            rs = it.call(it.getattr(seq, "seq_array"), [])
+            F8 = _dft_matrix(2 * N, False)
+            Hf = np.empty((ant, 2 * N), dtype=object)
+            for a in range(ant):
+                pad = np.zeros(2 * N, dtype=object)
+                pad[:L + 1] = taps[a]
+                Hf[a] = np.dot(F8, pad)
+            Y = Hf[:, ::2] * rs[np.newaxis, :]
+            if ant == 1:
+                Y = Y[0]
+            out = it.call(it.getattr(est, "estimate_channel_freq_domain"), [Y, L])
+        elif variant == "plain":
             seq = it.call(srs.UeSequence, [root, 0, r0, norm])
             est = it.call(ce.CazacBasedChannelEstimator, [seq, 1])
             rs = it.call(it.getattr(seq, "seq_array"), [])
